@@ -188,9 +188,9 @@ func (s *sch) hasDefaults() bool {
 	return false
 }
 
-func iptr(i int) *int           { return &i }
-func fptr(f float64) *float64   { return &f }
-func bptr(b bool) *bool         { return &b }
+func iptr(i int) *int         { return &i }
+func fptr(f float64) *float64 { return &f }
+func bptr(b bool) *bool       { return &b }
 
 func genLeaf(r *vh.Rand) *sch {
 	switch r.Intn(5) {
@@ -620,7 +620,6 @@ func runC16(c *vh.Case) {
 
 var _ = testing.Short
 
-
 // ---- two distinct Go types with the same (function-local) name, registered with a shared SchemaCache
 
 func c16RegisterA(s *mcp.Server, seen *[]string, mu *sync.Mutex) {
@@ -784,7 +783,6 @@ func runC16Case(c *vh.Case) {
 	c.Count("calls", len(cases))
 	c.Nontrivial(fmt.Sprintf("case:%d", big))
 }
-
 
 // ---- edge shapes: arguments that are not a JSON object, and pointer output types whose handler returns nil
 
